@@ -1,3 +1,3 @@
 From Coq Require Import Extraction ExtrOcamlBasic.
-From MW Require Import Common.Str C15.Model.
-Extraction "../ocaml/c15/c15_model.ml" extractall normpath pjoin dirname.
+From MW Require Import Common.Str C15.Model C15.ModelMkdirs.
+Extraction "../ocaml/c15/c15_model.ml" extractall normpath pjoin dirname split makedirs_fs.
